@@ -283,6 +283,26 @@ CLAIMED = {
         "enumerated against the implementation. Trusted: asyncio semantics as encoded in the labels.",
         "DESIGN.md §6 C05",
     ),
+    "C19": (
+        "Lean 4 theorems on the handler's gate and exception ladder and on the protocol transition system (an open connection is never wedged, other connections undisturbed, disconnect drops everything) + differential correspondence by fault injection and a typed-mutation grammar against the real web.start_client on both backends",
+        "Proof: Model/Handler.lean transcribes validate_message and the except-ladder of start_client; Props/C19.lean proves "
+        "the gate's exact domain, that every Exception class raised in the loop body is mapped to 'go on' (own errors: "
+        "with a NOTICE) or 'end this connection cleanly' and none escapes, that whatever add_event raises the client gets "
+        "its OK frame, that a REQ has no silent outcome; and on the protocol machine, for every state: the handler of an "
+        "open connection can always process REQ / CLOSE / EVENT / disconnect (C19_open_conn_never_wedged, with "
+        "C05_task_enabled for the notification round), one connection's REQ / CLOSE / sender / disconnect steps leave every "
+        "other connection's queue, transcript and subscriptions unchanged (C19_others_undisturbed), and disconnect drops "
+        "all subscriptions (with C13_nothing_after_disconnect). Tie: the real gate on generated JSON; 15 exception classes "
+        "injected at subscribe / unsubscribe / ws_recv / add_event on both backends, observed outcome = ladder's; the answer "
+        "kind of every grammar frame must be in the model's `allowed` table. Search: the typed-mutation grammar named in "
+        "the property (23 JSON values at every position), hostile validly-signed events, raw texts, depth and size, "
+        "with and without NIP-42, probes on the same and a second connection and a live-push watcher after every frame; "
+        "no escape, clean close, empty registry and no pending task at the end.",
+        "Partial: which exception the real code raises for which bytes is observed, not proved; the websocket server "
+        "(falcon/uvicorn), its frame size limits and OS resource exhaustion are outside the model. Trusted: asyncio "
+        "exception propagation as encoded in the ladder.",
+        "DESIGN.md §6 C19",
+    ),
 }
 
 NOT_YET = "not reached yet in this round (model/tie not built); see DESIGN.md §10 staging — no weaker technique is substituted"
